@@ -111,3 +111,17 @@ def diploid(seed, k=2):
         if _ok_for_dating(ts) and ts.num_individuals > 0:
             out.append(Inp(f"dip{seed}_{i}", ts, 6e-3, 100, {"contemp", "diploid"}))
     return out
+
+
+def flagged(inp, bit=1 << 20):
+    """Same input, with an extra flag bit on every non-contemporaneous sample (as tsinfer sets
+    NODE_IS_HISTORICAL_SAMPLE); flags other than NODE_IS_SAMPLE carry no meaning for dating."""
+    tables = inp.ts.dump_tables()
+    fl = tables.nodes.flags
+    is_s = (fl & tskit.NODE_IS_SAMPLE) != 0
+    sel = is_s & (tables.nodes.time > 0)
+    if not sel.any():
+        sel = is_s
+    fl[sel] |= bit
+    tables.nodes.flags = fl
+    return Inp(inp.name + "_flagged", tables.tree_sequence(), inp.mu, inp.Ne, inp.tags | {"flagged"})
